@@ -77,7 +77,7 @@ def new_scratch(tag="t", long_path=False, via_symlink=False):
     if os.environ.get("DRFVERIF_PLAIN_PATHS") != "1":
         # data sets live where users put them: a component with blanks and with characters that are special
         # in glob patterns and regular expressions
-        p = os.path.join(p, "run[3] (a+b)")
+        p = os.path.join(p, "tmp.run[3] (a+b)")  # (also begins like the library's own temporary names)
     if long_path:
         p = os.path.join(p, "deep_" + "a" * 90, "archive_" + "b" * 90, "site_" + "c" * 60)
     os.makedirs(p)
